@@ -326,3 +326,16 @@ package keeper
 //@   ensures[C06.gaev.all] len(validators) == it_n && state(ctx) == old(state(ctx))
 //@ loop #1
 //@   invariant[C06.gaev.all] 0 <= it_idx && it_idx <= it_n && len(validators) == it_idx && state(ctx) == old(state(ctx))
+
+// C18 (the exported document holds every collection of the module's store that outlives a block): each queue of the
+// exported state is what the accessor of its own collection returned, and so are the parameters and the total power.
+// (The per-operator finish epochs and per-record maturity epochs are rebuilt from the queues on import; the pending
+// lists, the epoch-end marker and the validator updates live for one block only.)
+//@ func (Keeper).ExportGenesis
+//@   flag noframe
+//@   flag pure=DefaultGenesis,GetDogfoodParams,IterateBondedValidatorsByPower,GetAllOptOutsToFinish,GetAllConsAddrsToPrune,GetAllUndelegationsToMature,GetLastTotalPower
+//@   ensures[C18.dfxg.params]  defined(res_GetDogfoodParams_0) && r0.Params == res_GetDogfoodParams_0
+//@   ensures[C18.dfxg.optouts] defined(res_GetAllOptOutsToFinish_0) && r0.OptOutExpiries == res_GetAllOptOutsToFinish_0
+//@   ensures[C18.dfxg.prunes]  defined(res_GetAllConsAddrsToPrune_0) && r0.ConsensusAddrsToPrune == res_GetAllConsAddrsToPrune_0
+//@   ensures[C18.dfxg.undels]  defined(res_GetAllUndelegationsToMature_0) && r0.UndelegationMaturities == res_GetAllUndelegationsToMature_0
+//@   ensures[C18.dfxg.power]   defined(res_GetLastTotalPower_0) && r0.LastTotalPower == res_GetLastTotalPower_0
